@@ -9,6 +9,8 @@ def build(chk):
     chk.assumptions_used.update(["A-REAL", "A-NP", "A-MATH", "A-JIT"])
     chk.math_lemmas.append("a Schur complement Cov_xx - Cov_xz Cov_zz^-1 Cov_zx of a positive semi-definite matrix is positive semi-definite (so its svd has the symmetric form used for B)")
     infscreen.c04_obligations(chk)
+    with chk.borrow("C05"):
+        infscreen.c05_obligations(chk)       # add_row: the new row is drawn from the screen before the shift and becomes row 0
     chk.bounded_native("end to end: black-box A, B of constructed screens satisfy the identities at the true pixel separations (both variants, sizes that are not 2^n+1, Fried constant shift)", "AB-identities",
                        "5 constructions (sizes 8..20), tolerance 2e-5 Cov(0)", "aotools/turbulence/infinitephasescreen.py:PhaseScreenVonKarman,PhaseScreenKolmogorov")
     chk.bounded_native("ill-conditioned parameters are refused (or still satisfy the identities)", "refuse", "2 constructions", "aotools/turbulence/infinitephasescreen.py:PhaseScreen.makeAMatrix")
